@@ -239,6 +239,18 @@ def run_case(case, ctx):
     interior = list(range(mm, length - mm))
     k = len(interior) if (ctx.tier == 'thorough' and length <= 24) else min(4, len(interior))
     idx |= set(int(v) for v in rng.choice(interior, size=k, replace=False))
+    outc = None
+    if case['seed'] % 3 == 1 and case['kind'] != 'integer_grid':
+        # complex-valued samples (the polynomial times 0.6 + 0.8j: a polynomial with complex coefficients): same weights, same rule
+        try:
+            outc = np.asarray(fd_derivative(fx * (0.6 + 0.8j), x.copy(), n=n, m=m))
+        except Exception as exc:
+            ctx.reject('raised', observed=repr(exc), detail=dict(complex_samples=True))
+            return
+        ctx.count('complex_sample_calls')
+        if outc.shape != (length,):
+            ctx.reject('length', observed=list(outc.shape), expected=[length], detail=dict(complex_samples=True))
+            return
     worst, worst_at = 0.0, None
     for i in sorted(idx):
         if i < mm:
@@ -265,6 +277,14 @@ def run_case(case, ctx):
         if not math.isfinite(o):
             ctx.reject('nonfinite', observed=o, detail=dict(index=i, where=where))
             return
+        if outc is not None:
+            ref_f = to_float(ref)
+            errc = abs(complex(outc[i]) - (0.6 + 0.8j) * ref_f)
+            ctx.count('points_asserted:complex_samples')
+            if not errc <= 2 * bound + 16 * EPS * abs(ref_f):
+                ctx.reject('not_exact_on_polynomial', observed=complex(outc[i]), expected=(0.6 + 0.8j) * ref_f,
+                           detail=dict(index=i, where=where, err=errc, bound=2 * bound + 16 * EPS * abs(ref_f), complex_samples=True), where=where)
+                return
         err = to_float(abs(F(o) - ref))
         ratio = err / bound if bound > 0 else (0.0 if err == 0 else math.inf)
         if ratio > worst:
